@@ -156,6 +156,17 @@ func (g *gen) errorRich() {
 	if tp.Chance(1, 3, "err.misc") {
 		g.sb.WriteString("ez.shape: no_such_shape\nez.style.opacity: 7\nez -> ez.missing.deep: {\n  style.stroke-width: 99\n}\n")
 	}
+	if tp.Chance(1, 2, "err.boards") {
+		// sibling boards that each hold a mistake only the graph compiler finds (after the
+		// IR is built): the error list is shared by all boards
+		kind := []string{"layers", "scenarios", "steps"}[tp.Draw(3, "err.boards.kind")]
+		mistakes := []string{"bx.style.opacity: 7", "bx: {\n      shape: circle\n      width: 10\n      height: 20\n    }", "bx.style.3d: true\n    bx.shape: circle", "bx: {\n      constraint: primary_key\n    }", "bx.style.stroke-width: 99", "bx.near: nowhere"}
+		fmt.Fprintf(&g.sb, "%s: {\n", kind)
+		for i, n := 0, 3+tp.Draw(4, "err.boards.n"); i < n; i++ {
+			fmt.Fprintf(&g.sb, "  eb%d: {\n    %s\n  }\n", i, strings.ReplaceAll(mistakes[tp.Draw(len(mistakes), "err.boards.which")], "bx", fmt.Sprintf("bx%d", i)))
+		}
+		g.sb.WriteString("}\n")
+	}
 	if tp.Chance(1, 3, "err.spreadvar") {
 		g.sb.WriteString("ew: {\n  ...${not_a_map}\n}\n")
 	}
@@ -302,6 +313,23 @@ func (g *gen) RenderFeatures() {
 		for i, h := range heads {
 			fmt.Fprintf(&g.sb, "ah%d -> ah%d: {\n  source-arrowhead: {shape: %s; style.filled: %v}\n  target-arrowhead: %d {shape: %s; style.filled: %v}\n}\n", i, i+1, h, flip, i, h, !flip)
 		}
+	}
+	if tp.Chance(1, 6, "rf.biggrid") {
+		// a dynamic grid (rows or columns only) with many uneven cells: the layout searches
+		// for the best division of the cells
+		n := 40 + tp.Draw(70, "rf.biggrid.n")
+		key := []string{"grid-rows", "grid-columns"}[tp.Draw(2, "rf.biggrid.key")]
+		fmt.Fprintf(&g.sb, "bg: {\n  %s: %d\n", key, 3+tp.Draw(12, "rf.biggrid.k"))
+		seed := uint64(tp.Draw(1<<30, "rf.biggrid.seed"))
+		for i := 0; i < n; i++ {
+			r := tape.SplitMix(&seed)
+			fmt.Fprintf(&g.sb, "  c%d: %s", i, strings.Repeat("w", 1+int(r%23)))
+			if r>>8%5 == 0 {
+				fmt.Fprintf(&g.sb, " {\n    width: %d\n    height: %d\n  }", 40+int(r>>16%300), 30+int(r>>32%200))
+			}
+			g.sb.WriteString("\n")
+		}
+		g.sb.WriteString("}\n")
 	}
 	if tp.Chance(1, 4, "rf.icons") {
 		g.sb.WriteString("ic1: {\n  icon: https://icons.terrastruct.com/essentials/004-picture.svg\n}\nic2: img {\n  shape: image\n  icon: https://icons.terrastruct.com/essentials/005-programmer.svg\n}\n")
